@@ -153,6 +153,60 @@ def is_assert_like(x):
     return x["kind"] == "DoStmt"
 
 
+def chunk_list_bounds(rep, r5, m):
+    """engine LSE on cmi_mempool_expand: slot index inside the (possibly just grown) list, count below length afterwards"""
+    ex = m.need("cmi_mempool_expand")
+    ex_x = FuncCtx(m, ex)
+    mp = ex.params[0]["name"]
+    # engine LSE: with cnt < len on entry (established by initialize: 0 < CHUNK_LIST_SIZE, and re-established by every
+    # expansion), every path through expand writes a slot index in [0, len') where len' is the length after a possible
+    # growth, leaves cnt' < len', and the growth is a realloc to len' elements
+    from ..engines.lse import LSE
+    from ..engines.induct import Poly, Facts
+    cntk, lenk = "%s->chunk_list_cnt" % mp, "%s->chunk_list_len" % mp
+    entry = Facts().add_le0(Poly.sym("c").scale(-1), "cnt >= 0").add_le0(Poly.sym("c") + Poly.const(1) - Poly.sym("L"), "cnt < len on entry")
+    eng = LSE(ex_x, {cntk: "c", lenk: "L"}, entry)
+    slots = []
+    eng.on_store = lambda p_, base, idx, node: slots.append((p_, base, idx, node, dict(p_.state), p_.facts)) if base.endswith("chunk_list") else None
+    # the static-pool branch re-initialises the pool (cnt = 0, len = CHUNK_LIST_SIZE): analyse from after it
+    top_ = kids(ex.body)
+    start = 0
+    for i_, s_ in enumerate(top_):
+        if s_["kind"] == "IfStmt" and any(callee_ref(y) == "cmi_mempool_initialize" for y in walk(s_) if y["kind"] == "CallExpr"):
+            start = i_ + 1
+    paths = eng.run(top_[start:])
+    r5.instance("expand: %d path(s), %d slot store(s)" % (len(paths), len(slots)))
+    okg = bool(slots)
+    why = "no store into the chunk list found"
+    for p_, base, idx, node, st_, facts_ in slots:
+        if idx is None:
+            okg, why = False, "the slot index is not a linear function of the count"
+            continue
+        lo = facts_.proves_le0(idx.scale(-1))
+        # the length that the list has at the time of the store is the current value of len on this path
+        hi = facts_.proves_le0(idx + Poly.const(1) - st_[lenk])
+        if not (lo and hi):
+            okg, why = False, "slot index %s is not provably below the list length %s (%s)" % (idx.show(), st_[lenk].show(), "; ".join(facts_.notes))
+    for p_ in paths:
+        if not p_.facts.proves_le0(p_.state[cntk] + Poly.const(1) - p_.state[lenk]):
+            okg, why = False, "after expand cnt = %s is not provably below len = %s: the next expansion would write beyond the list" % (
+                p_.state[cntk].show(), p_.state[lenk].show())
+        if not (p_.state[cntk] - Poly.sym("c") == Poly.const(1)):
+            okg, why = False, "the chunk count changes by %s per expansion" % (p_.state[cntk] - Poly.sym("c")).show()
+    # a path on which len grows must reallocate the list with the new length (in elements * sizeof)
+    grew = [p_ for p_ in paths if not (p_.state[lenk] - Poly.sym("L") == Poly())]
+    reallocs = [c_ for c_ in walk(ex.body) if c_["kind"] == "CallExpr" and callee_ref(c_) in ("cmi_realloc", "realloc")]
+    if grew and not reallocs:
+        okg, why = False, "the length grows without a reallocation of the list"
+    rep.sample({"rule": getattr(r5, "id", "R-C20-5"), "paths": [{"cnt": p_.state[cntk].show(), "len": p_.state[lenk].show(), "facts": p_.facts.notes} for p_ in paths]})
+    if not okg:
+        rep.finding(r5, ex.name, "chunk-list:bounds", "the chunk list slot written is not provably inside the list on every path: "
+                    "%s" % why, where=m.rel(ex.where))
+        r5.fail()
+    else:
+        r5.ok()
+
+
 def rules(rep, m):
     mp_files = ("src/cmi_mempool.c", "src/cmi_mempool.h")
     ex = m.need("cmi_mempool_expand")
@@ -328,53 +382,7 @@ def rules(rep, m):
     # R-C20-5 ------------------------------------------------------------
     r5 = rep.rule("R-C20-5", "chunk list: the slot written for a new chunk is dominated by the capacity test that grows the "
                   "list (length in elements, allocation in bytes); terminate frees every chunk and the list", floor=2)
-    # engine LSE: with cnt < len on entry (established by initialize: 0 < CHUNK_LIST_SIZE, and re-established by every
-    # expansion), every path through expand writes a slot index in [0, len') where len' is the length after a possible
-    # growth, leaves cnt' < len', and the growth is a realloc to len' elements
-    from ..engines.lse import LSE
-    from ..engines.induct import Poly, Facts
-    cntk, lenk = "%s->chunk_list_cnt" % mp, "%s->chunk_list_len" % mp
-    entry = Facts().add_le0(Poly.sym("c").scale(-1), "cnt >= 0").add_le0(Poly.sym("c") + Poly.const(1) - Poly.sym("L"), "cnt < len on entry")
-    eng = LSE(ex_x, {cntk: "c", lenk: "L"}, entry)
-    slots = []
-    eng.on_store = lambda p_, base, idx, node: slots.append((p_, base, idx, node, dict(p_.state), p_.facts)) if base.endswith("chunk_list") else None
-    # the static-pool branch re-initialises the pool (cnt = 0, len = CHUNK_LIST_SIZE): analyse from after it
-    top_ = kids(ex.body)
-    start = 0
-    for i_, s_ in enumerate(top_):
-        if s_["kind"] == "IfStmt" and any(callee_ref(y) == "cmi_mempool_initialize" for y in walk(s_) if y["kind"] == "CallExpr"):
-            start = i_ + 1
-    paths = eng.run(top_[start:])
-    r5.instance("expand: %d path(s), %d slot store(s)" % (len(paths), len(slots)))
-    okg = bool(slots)
-    why = "no store into the chunk list found"
-    for p_, base, idx, node, st_, facts_ in slots:
-        if idx is None:
-            okg, why = False, "the slot index is not a linear function of the count"
-            continue
-        lo = facts_.proves_le0(idx.scale(-1))
-        # the length that the list has at the time of the store is the current value of len on this path
-        hi = facts_.proves_le0(idx + Poly.const(1) - st_[lenk])
-        if not (lo and hi):
-            okg, why = False, "slot index %s is not provably below the list length %s (%s)" % (idx.show(), st_[lenk].show(), "; ".join(facts_.notes))
-    for p_ in paths:
-        if not p_.facts.proves_le0(p_.state[cntk] + Poly.const(1) - p_.state[lenk]):
-            okg, why = False, "after expand cnt = %s is not provably below len = %s: the next expansion would write beyond the list" % (
-                p_.state[cntk].show(), p_.state[lenk].show())
-        if not (p_.state[cntk] - Poly.sym("c") == Poly.const(1)):
-            okg, why = False, "the chunk count changes by %s per expansion" % (p_.state[cntk] - Poly.sym("c")).show()
-    # a path on which len grows must reallocate the list with the new length (in elements * sizeof)
-    grew = [p_ for p_ in paths if not (p_.state[lenk] - Poly.sym("L") == Poly())]
-    reallocs = [c_ for c_ in walk(ex.body) if c_["kind"] == "CallExpr" and callee_ref(c_) in ("cmi_realloc", "realloc")]
-    if grew and not reallocs:
-        okg, why = False, "the length grows without a reallocation of the list"
-    rep.sample({"rule": "R-C20-5", "paths": [{"cnt": p_.state[cntk].show(), "len": p_.state[lenk].show(), "facts": p_.facts.notes} for p_ in paths]})
-    if not okg:
-        rep.finding(r5, ex.name, "chunk-list:bounds", "the chunk list slot written is not provably inside the list on every path: "
-                    "%s" % why, where=m.rel(ex.where))
-        r5.fail()
-    else:
-        r5.ok()
+    chunk_list_bounds(rep, r5, m)
     lenst = ist.get(imp + "->chunk_list_len")
     lal = ist.get(imp + "->chunk_list")
     if not (lal and re.fullmatch(r"cmi_malloc\(\(%s->chunk_list_len \* sizeof\(void \*\)\)\)" % imp, lal)):
@@ -400,6 +408,38 @@ def rules(rep, m):
     else:
         r5.ok()
 
+
+    # R-C20-8 ------------------------------------------------------------
+    r8 = rep.rule("R-C20-8", "the free list never outlives the chunks it is threaded through: initialize stores an empty free "
+                  "list, and terminate empties it under the same conditions under which it frees the chunks (a pool that is "
+                  "initialised again would otherwise hand out objects inside freed memory)", floor=2)
+    r8.instance("initialize: next_obj = %s" % ist.get(imp + "->next_obj"))
+    if ist.get(imp + "->next_obj") not in ("NULL", "0", "(void *)0"):
+        rep.finding(r8, ini.name, "free-list:not-emptied", "cmi_mempool_initialize leaves next_obj as it was (%s): a pool that is "
+                    "initialised again after terminate - or whose memory was not zeroed - starts with a free list that points "
+                    "into memory it does not own" % ist.get(imp + "->next_obj"), where=m.rel(ini.where))
+        r8.fail()
+    else:
+        r8.ok()
+    tx8 = FuncCtx(m, tm)
+    frees8 = [y for y in walk(tm.body) if y["kind"] == "CallExpr" and callee_ref(y) in ("cmi_aligned_free", "cmi_free")]
+    nulls8 = [n_ for l, r_, k_, n_ in inv.stores(tm) if tx8.canon(l).endswith("->next_obj") and r_ is not None and
+              tx8.canon(r_) in ("NULL", "0", "(void *)0")]
+    r8.instance("terminate: %d free call(s), %d store(s) emptying the free list" % (len(frees8), len(nulls8)))
+    okn = bool(frees8) and bool(nulls8)
+    if okn:
+        for fc_ in frees8:
+            fcond = [cd for cd in inv.dominating_conditions(tx8, tm, fc_)]
+            # conditions of the enclosing loop body do not count: take those of the outermost statement holding the call
+            if not any(all(cd in fcond for cd in inv.dominating_conditions(tx8, tm, n_)) for n_ in nulls8):
+                okn = False
+    if not okn:
+        rep.finding(r8, tm.name, "free-list:dangling", "cmi_mempool_terminate frees the chunks but does not (under the same "
+                    "conditions) set next_obj to NULL: the free list keeps pointing into freed chunks, and the next "
+                    "cmi_mempool_alloc after a re-initialisation pops objects from there", where=m.rel(tm.where))
+        r8.fail()
+    else:
+        r8.ok()
 
     # R-C20-6 ------------------------------------------------------------
     r6 = rep.rule("R-C20-6", "every statically initialised pool starts in the state that expand's first-use route expects: "
